@@ -121,8 +121,27 @@ fn roundtrip_case(nodes: &[f64], nvars: usize, prec: usize, big: bool, dir: &std
             }
         }
         for pass in 0..2 {
+            // a query in the LAST cell of the mesh as it is before the read (a search hint or a cached cell index left behind by it
+            // must not outlive the nodes it refers to), and one in the first
+            if r.nnodes() >= 2 {
+                let k = r.nnodes() - 1;
+                let _ = r.get_interpolated_vars(0.5 * (r.coord(k - 1) + r.coord(k)));
+                let _ = r.get_interpolated_vars(0.5 * (r.coord(0) + r.coord(1)));
+                let _ = r.get_interpolated_vars(0.5 * (r.coord(k - 1) + r.coord(k)));
+            }
             r.read(ps);
             ensure!(r.nnodes() == n && r.nodes().size() == n, "read() into a mesh of {} nodes (pass {}): {} nodes expected {}", target, pass, r.nnodes(), n);
+            // interpolation on the mesh that was read, cell by cell from the left and once more from the right (cells of the stated minimum width only)
+            for i in (0..n - 1).chain((0..n - 1).rev()) {
+                let (a, b) = (r.coord(i), r.coord(i + 1));
+                if b - a >= 1e-3 {
+                    let got = r.get_interpolated_vars(0.5 * (a + b));
+                    for v in 0..nvars {
+                        let want = 0.5 * (r[i][v] + r[i + 1][v]);
+                        ensure!((got[v] - want).abs() <= 1e-9 * want.abs().max(1.0), "after read() into a mesh of {} nodes (pass {}): interpolation at the middle of cell {} gives {} expected {}", target, pass, i, got[v], want);
+                    }
+                }
+            }
             for i in 0..n {
                 ensure!((r.coord(i) - nodes[i]).abs() <= tol, "node {} read back as {} expected {} (precision {}, target of {} nodes)", i, r.coord(i), nodes[i], prec, target);
                 for v in 0..nvars {
@@ -315,8 +334,10 @@ impl St {
         let mut m = Mesh2D::<f64>::new(Vector::create(xs(self.nx)), Vector::create(xs(self.ny)), NV);
         for a in &self.hist {
             // read-only queries between the replayed writes: "query; write; query" happens on ONE object
-            let _ = catch(|| m.trapezium(0));
-            let _ = catch(|| m.square_trapezium(1));
+            for v in 0..NV {
+                let _ = catch(|| m.trapezium(v));
+                let _ = catch(|| m.square_trapezium(v));
+            }
             let _ = catch(|| m.cross_section_xnode(0));
             let _ = catch(|| m.cross_section_ynode(0));
             let _ = catch(|| m.var_as_matrix(1));
@@ -352,6 +373,7 @@ impl Sut for St {
             for j in 0..self.ny {
                 a.push(Act::SetNode(i, j, 1));
                 a.push(Act::IndexWrite(i, j, 1, 2));
+                a.push(Act::IndexWrite(i, j, 0, 5));
             }
         }
         a.push(Act::Assign(3));
@@ -410,6 +432,21 @@ impl Sut for St {
                     ensure!(a[(i, j)] == self.model[i][j][v], "var_as_matrix({})[{},{}]", v, i, j);
                 }
             }
+        }
+        // the integrals of the object that went through the history (queried between the writes as well): cell sums of the model
+        let (x, y) = (xs(self.nx), xs(self.ny));
+        for v in 0..NV {
+            let (mut want, mut wsq) = (0.0, 0.0);
+            for i in 0..self.nx - 1 {
+                for j in 0..self.ny - 1 {
+                    let w = 0.25 * (x[i + 1] - x[i]) * (y[j + 1] - y[j]);
+                    let c = [self.model[i][j][v], self.model[i + 1][j][v], self.model[i][j + 1][v], self.model[i + 1][j + 1][v]];
+                    want += w * (c[0] + c[1] + c[2] + c[3]);
+                    wsq += w * (c[0] * c[0] + c[1] * c[1] + c[2] * c[2] + c[3] * c[3]);
+                }
+            }
+            ensure!((m.trapezium(v) - want).abs() <= 1e-12 * want.abs().max(1.0), "after the history, trapezium({}) = {} expected the cell sum {}", v, m.trapezium(v), want);
+            ensure!((m.square_trapezium(v) - wsq).abs() <= 1e-12 * wsq.abs().max(1.0), "after the history, square_trapezium({}) = {} expected {}", v, m.square_trapezium(v), wsq);
         }
         Ok(())
     }
